@@ -65,12 +65,24 @@ def run(res):
                                                                        ".macro shared\n nop\n.endm\n shared\n", " shared\n", ".set v = 1\n.dw v\n", ".dw v\n",
                                                                        ".def t = r16\n mov t, t\n", " mov t, t\n", ".define F\n.ifdef F\n.dw 1\n.endif\n", ".ifdef F\n.dw 1\n.endif\n",
                                                                        ".message \"m\"\n", "nop\n"]
+    # names next to the device table's (one or two characters more or less): whatever is done with them must not depend on the
+    # order in which a process happens to enumerate the table
+    from . import gen
+    names = sorted(d[0] for d in gen.read_devices(vh)[1:])
+    near = []
+    for nm in names:
+        near += [nm + "P", nm + "A", nm + "8", nm + "PA", nm[:-1]]
+    rng.shuffle(near)
+    texts += [".device %s\n.dseg\nv: .byte 1\n.cseg\n jmp v\n" % nm for nm in near[:40 if res.tier == "quick" else 400]]
     texts = list(dict.fromkeys(texts))
     obs = P.correspond(res, vh, exe, texts, "programs (each also replayed in histories and threads)")
-    # fresh process per source
+    # fresh process per source - three of them: two processes enumerate a hash map in different orders
     fresh = {}
     for t in texts:
-        fresh[t] = C.vh(vh, ["build-worker"], input=t.encode("utf-8").hex() + "\n").strip()
+        runs = [C.vh(vh, ["build-worker"], input=t.encode("utf-8").hex() + "\n").strip() for _ in range(3)]
+        fresh[t] = runs[0]
+        if len(set(runs)) > 1:
+            P.fail(res, "builder::build_str in fresh processes", t, "the same result in every process", "results %r" % sorted(set(r[:80] for r in runs)), "processes")
     out = C.vh(vh, ["hist", "8"], input="".join(t.encode("utf-8").hex() + "\n" for t in texts)).split("\n")
     nthreadobs = 0
     for t, ln in zip(texts, out):
